@@ -186,6 +186,9 @@ End Call.
 
 Definition distance_ideal := distance 0 step_ideal.
 Definition distance_mach := distance (Some 0) step_mach.
+(* magnitude of the inputs of a row, sum_j |x_j| + |y_j| (used for error bounds only) *)
+Definition step_mag (mt : metric) (a b acc : Z) : Z := acc + Z.abs a + Z.abs b.
+Definition distance_mag := distance 0 step_mag.
 
 (* the specification: per row, the norm of x - y *)
 Definition zsum (l : list Z) : Z := fold_right Z.add 0 l.
@@ -204,17 +207,23 @@ Definition half_ulp : Q := 1 # (2 ^ 53).
 Definition sqrt_ok (s r : Q) : bool :=
   Qle_bool 0 r && Qle_bool (Qabs (r * r - s)) (s * (3 # (2 ^ 53))).
 
-Definition cell_ok (mt : metric) (scale : positive) (m : nat) (impl : Q) (mach : option Z) (ideal : Z) : bool :=
+(* outside the exact range the operands are rounded on conversion to double, so the error is
+   bounded relative to the magnitude mag = sum_j (|x_j| + |y_j|) of the inputs, not of the result *)
+Definition loose_tol : Q := 1 # 1000000000000.
+Definition cell_ok (mt : metric) (scale : positive) (m : nat) (impl : Q) (mach : option Z) (ideal mag : Z) : bool :=
+  let T := (loose_tol * (if Qle_bool 1 (mag # scale) then mag # scale else 1))%Q in
   match mt with
   | Manhattan =>
       match mach with
       | Some v => Qeq_bool impl (v # scale)
-      | None => qtol (1 # 1000000000000) impl (ideal # scale)
+      | None => Qle_bool (Qabs (impl - (ideal # scale))) T
       end
   | Euclid =>
       match mach with
       | Some v => sqrt_ok (v # (scale * scale)) impl
-      | None => Qle_bool 0 impl && qtol (1 # 1000000000000) (impl * impl) (ideal # (scale * scale))
+      | None => let S := (ideal # (scale * scale))%Q in
+                Qle_bool 0 impl && Qle_bool S ((impl + T) * (impl + T)) &&
+                (Qle_bool impl T || Qle_bool ((impl - T) * (impl - T)) S)
       end
   | Hamming =>
       match mach with
@@ -224,19 +233,20 @@ Definition cell_ok (mt : metric) (scale : positive) (m : nat) (impl : Q) (mach :
   end.
 
 Fixpoint cells_ok (mt : metric) (scale : positive) (m : nat) (impl : list Q) (mach : list (option Z))
-         (ideal : list Z) : bool :=
-  match impl, mach, ideal with
-  | [], [], [] => true
-  | q :: impl', a :: mach', z :: ideal' => cell_ok mt scale m q a z && cells_ok mt scale m impl' mach' ideal'
-  | _, _, _ => false
+         (ideal mag : list Z) : bool :=
+  match impl, mach, ideal, mag with
+  | [], [], [], [] => true
+  | q :: impl', a :: mach', z :: ideal', g :: mag' =>
+      cell_ok mt scale m q a z g && cells_ok mt scale m impl' mach' ideal' mag'
+  | _, _, _, _ => false
   end.
 
 (* impl = None: the real call raised;  Some l: the returned float64 vector as exact rationals *)
 Definition agrees (mt : metric) (scale : positive) (X y : ndarr) (out : option (aobj * list Z))
            (impl : option (list Q)) : bool :=
   let outm := option_map (fun p => (fst p, map (fun z => Some z) (snd p))) out in
-  match distance_mach mt X y outm, distance_ideal mt X y out, impl with
-  | DErr _, DErr _, None => true
-  | DOk mach, DOk ideal, Some l => cells_ok mt scale (dim y 0) l mach ideal
-  | _, _, _ => false
+  match distance_mach mt X y outm, distance_ideal mt X y out, distance_mag mt X y out, impl with
+  | DErr _, DErr _, _, None => true
+  | DOk mach, DOk ideal, DOk mag, Some l => cells_ok mt scale (dim y 0) l mach ideal mag
+  | _, _, _, _ => false
   end.
